@@ -348,9 +348,7 @@ pub fn run_check(ctx: &Ctx) -> i32 {
         for (oi, order) in orders.iter().enumerate() {
             // quick: every interleaving for Pinned and OneThread; Migrate on every 3rd
             for (ai, assign) in [Assign::OneThread, Assign::Pinned, Assign::Migrate].into_iter().enumerate() {
-                if quick && ai == 2 && oi % 3 != 0 {
-                    continue;
-                }
+                let _ = quick;
                 let parse_between = (oi + ai) % 2 == 0;
                 let got = run_interleaving(&pool, &insts, order, assign, parse_between);
                 ctx.exec(order.len());
@@ -399,7 +397,7 @@ pub fn run_check(ctx: &Ctx) -> i32 {
         let orders = interleavings(&lens);
         let pool = Pool::new(3);
         for (oi, order) in orders.iter().enumerate() {
-            if quick && oi % 40 != 0 {
+            if quick && oi % 8 != 0 {
                 continue;
             }
             let assign = [Assign::OneThread, Assign::Pinned, Assign::Migrate][oi % 3];
@@ -417,7 +415,7 @@ pub fn run_check(ctx: &Ctx) -> i32 {
             }
         }
     });
-    ctx.level_done(&format!("{} triples over 4 instances x {} interleavings", triples.len(), if quick { "every 40th of the 34 650" } else { "all" }));
+    ctx.level_done(&format!("{} triples over 4 instances x {} interleavings", triples.len(), if quick { "every 8th of the" } else { "all" }));
     // C API last error per thread
     for order in interleavings(&[2, 2]) {
         ctx.exec(4);
